@@ -5,10 +5,13 @@ package main
 
 import (
 	"fmt"
+	"go/constant"
 	"runtime/debug"
 	"sort"
 	"strings"
 	"time"
+
+	"golang.org/x/tools/go/ssa"
 )
 
 type JobSpec struct {
@@ -80,6 +83,7 @@ type JobResult struct {
 	GlobalStores    []string              `json:"global_stores,omitempty"`
 	GlobalLoads     []string              `json:"global_loads,omitempty"`
 	NVars           int                   `json:"nvars"`
+	StaticReach     []string              `json:"static_reach,omitempty"`
 	FeasKinds       map[string]int        `json:"feas_kinds,omitempty"`
 }
 
@@ -201,6 +205,7 @@ func RunJob(p *Program, spec JobSpec, kfAccept map[string]bool) (res *JobResult)
 	for i, a := range spec.Args {
 		args[i] = Int(uint64(int64(a)))
 	}
+	res.StaticReach = staticReach(p, fn)
 	st := e.base.Fork()
 	te := time.Now()
 	_ = e.call(p.Info(fn), st, args)
@@ -379,4 +384,57 @@ func RunJob(p *Program, spec JobSpec, kfAccept map[string]bool) (res *JobResult)
 		res.Status = "inconclusive"
 	}
 	return
+}
+
+// staticReach lists the ids of all vReach call sites in the harness function
+// and in the harness-file functions it (transitively) refers to.
+func staticReach(p *Program, root *ssa.Function) []string {
+	seen := map[*ssa.Function]bool{}
+	ids := map[string]bool{}
+	var visit func(f *ssa.Function)
+	inHarness := func(f *ssa.Function) bool {
+		if f == nil || f.Blocks == nil {
+			return false
+		}
+		pos := p.Prog.Fset.Position(f.Pos())
+		return strings.Contains(pos.Filename, "zz_verif_")
+	}
+	visit = func(f *ssa.Function) {
+		if seen[f] || !inHarness(f) {
+			return
+		}
+		seen[f] = true
+		for _, b := range f.Blocks {
+			for _, in := range b.Instrs {
+				var ops []*ssa.Value
+				for _, op := range in.Operands(ops) {
+					if g, ok := (*op).(*ssa.Function); ok {
+						visit(g)
+					}
+					if mc, ok := (*op).(*ssa.MakeClosure); ok {
+						if g, ok := mc.Fn.(*ssa.Function); ok {
+							visit(g)
+						}
+					}
+				}
+				if c, ok := in.(*ssa.Call); ok {
+					if g := c.Call.StaticCallee(); g != nil && g.Name() == "vReach" && len(c.Call.Args) == 1 {
+						if k, ok := c.Call.Args[0].(*ssa.Const); ok && k.Value != nil {
+							ids[constant.StringVal(k.Value)] = true
+						}
+					}
+				}
+			}
+		}
+		for _, a := range f.AnonFuncs {
+			visit(a)
+		}
+	}
+	visit(root)
+	var out []string
+	for k := range ids {
+		out = append(out, k)
+	}
+	sort.Strings(out)
+	return out
 }
